@@ -7,7 +7,9 @@ PROP_V = ["Props/Properties_C10.v"]
 GEN_MODULES = ["Consts", "Sites"]
 FLOW_FILES = ['counter.c']
 REPLAY_HINT = "VRT_SEED=<seed> _work/h/counter_mix"
-PARTIAL = ["C10_no_stuck is proved in the form C10_no_stuck_partial (an unfinished thread can run, or waits for a lock whose holder can run, or "
+PARTIAL = ["'through nsync_wait_n': CounterModel inlines the waitable path for count = 1, mu = NULL; the composition of the real counter steps with wait.c's loop is covered by WaitNModel (abstract counter) + waitn_mix, not by one composed model",
+           'runs that race the `waited` ASSERT (an increment from zero concurrent with the first wait: C10_assert_race) are excluded by `broken w = false` -- a client-contract hypothesis (all increments precede all waits), recorded in DESIGN 9.2',
+           "C10_no_stuck is proved in the form C10_no_stuck_partial (an unfinished thread can run, or waits for a lock whose holder can run, or "
            "sleeps with its record queued while the value is non-zero); the unconditional statement is refuted by a client-side deadlock "
            "(a waiter on a counter nobody decrements): C10_no_stuck_refuted"]
 TRUSTED_BASE = ["Model/CounterModel.v control skeleton (counter_mu abstract, the one-object path of nsync_wait_n inlined): hand-written, "
